@@ -131,7 +131,8 @@ CHECKS = {
         "every out-of-range linear index in [-2n,3n] and coordinate triple on all grids up to 3x3x3 and path "
         "graphs up to 6 nodes goes through every accessor that takes a position (spaces, system, "
         "apply_reaction, kinetics, trajectory) with the system state compared afterwards; unknown species "
-        "and invalid coarse-graining maps (valid map + one broken rule) likewise.",
+        "(accessors and networks: undeclared reactants / products, duplicate labels), array fields with one "
+        "element of another dimension, and invalid coarse-graining maps (valid map + one broken rule) likewise.",
         "Any exception type counts as rejection. The catalogue lists only inputs the statement, the "
         "documentation or the code's own checks declare invalid."),
     "C16": (
@@ -188,7 +189,8 @@ CHECKS = {
         "chemostated entries) is computed independently, and for Euler / tau-leap / Gillespie runs sampled at "
         "every iteration each conserved combination must keep its sample-0 value: exactly for the stochastic "
         "engines, within 1e-9 of the magnitude for Euler; a pure-diffusion facet checks every species' total "
-        "on grids with all boundary mixes and on (multi)graphs with heterogeneous volumes.",
+        "on grids with all boundary mixes and on (multi)graphs with heterogeneous volumes; a third facet places a "
+        "chemostated species between two reacting unflagged ones (species order) by construction.",
         "20-400 iterations per run; stochastic runs receive exact integer molecule numbers (redistribution "
         "mode, or 'none' with a state given in molecules)."),
     "C10": (
@@ -198,7 +200,9 @@ CHECKS = {
         "Exploration, exhaustive on all grammar-respecting call sequences of length <= 5 over 10 concrete calls "
         "on one engine: each is executed in a child process and compared call by call with a lifecycle "
         "reference model (returns, sticky completion, records, progress, outputs bit-identical to the "
-        "clean-room trajectory, repeated output, multiple finalize, clean slate after re-setup); random "
+        "clean-room trajectory, repeated output, multiple finalize, clean slate after re-setup); fixed-step runs "
+        "(both engines, both space types, t_max = 0 / multiples / non-multiples / default) must report completion "
+        "exactly at the first step beyond t_max; random "
         "histories up to 40 calls over two engine objects of any kind (incl. sub-molecule and empty states, "
         "run-to-completion loops) must return within a hang bound, must not crash, and every object must "
         "return what it returns when driven alone in a fresh process.",
@@ -242,8 +246,9 @@ CHECKS = {
         "computed propensity is positive, with non-negative integer states, strictly increasing time and "
         "termination exactly at zero total propensity; rates are decided statistically: sum a0 dt against "
         "Gamma(N,1), per-class event counts against their martingale variance, tau-leap increments of linear "
-        "functionals for mean and Poisson dispersion, and a dedicated family at n..n+6 molecules where the "
-        "falling-factorial factor dominates (150 seeds per case).",
+        "functionals for mean and Poisson dispersion (also on pure-diffusion systems with chemostat maps), and a "
+        "dedicated family at n..n+6 molecules where the falling-factorial factor dominates (150 seeds per case). "
+        "The script / output unit system is drawn at random; the reference stays in molecules and seconds.",
         "|z| < 7 per test; runs are pure functions of generated seeds. The rate facets use mass-balanced "
         "networks without chemostats so that fixed-step runs stay bounded; runs with active null channels "
         "are excluded from the rate statistics. Deviations below ~7/sqrt(N) are below the tests' power."),
